@@ -47,12 +47,12 @@ def _contents(rng, fid, shape, dch):
     ents = []
     n = 0
     if shape in ("nogroup", "both"):
-        for k in rng.subset(["alpha", "beta", "gamma"], 1, 3):
+        for k in rng.subset(["al", "alpha", "beta", "gamma", "alpha_2", "ALPHA"], 1, 4):        # incl. keys that are prefixes of later keys
             n += 1
             ents.append([None, k, "v%d.%d" % (fid, n)])
     if shape in ("sections", "both"):
         for s in rng.subset(["secA", "secB"], 1, 2):
-            for k in rng.subset(["alpha", "delta", "eps"], 1, 2):
+            for k in rng.subset(["alpha", "de", "delta", "eps", "delta.x"], 1, 3):
                 n += 1
                 ents.append([s, k, "v%d.%d" % (fid, n)])
     return ents
